@@ -9,10 +9,10 @@ import (
 	"github.com/Comcast/sheens/core"
 	"github.com/Comcast/sheens/match"
 	"pgregory.net/rapid"
-	"verif/internal/crewh"
-	"verif/internal/ev"
-	"verif/internal/jsongen"
-	"verif/internal/sm"
+	"verif/lib/crewh"
+	"verif/lib/ev"
+	"verif/lib/jsongen"
+	"verif/lib/sm"
 )
 
 // ---------------------------------------------------------------- C08
